@@ -99,6 +99,13 @@ def poisonHex (size : Nat) : String :=
 def freedHex (obs : List (List String)) (addr : Nat) : Option String :=
   (obs.find? (fun l => l.head? == some "ufree" && (l[1]? >>= String.toNat?) == some addr)).bind (·[3]?)
 
+/-- the current allocator of the family an overload form belongs to: `new…`/`del…` the new family, `newa…`/`dela…` the
+    new[] family, `malloc`/`free` the malloc family — independent of file/line, size or `std::nothrow` arguments -/
+def curOf (sh : Shadow) (form : String) : Nat :=
+  if form == "malloc" || form == "free" then sh.curMal
+  else if form.startsWith "newa" || form.startsWith "dela" then sh.curArr
+  else sh.curNew
+
 def release (sh : Shadow) (ai addr : Nat) (obs : List (List String)) (viaOverload : Bool) : Except String Shadow := do
   checkVerdict sh ai addr obs
   match find sh addr with
@@ -137,20 +144,17 @@ def specStep (sh : Shadow) (o : Proto.Op) : Except String Shadow := do
         let bad := if byte != guardByte i then i :: bad else bad
         pure { sh with live := sh.live.map (fun x => if x.addr == blk.addr then { x with bad := bad } else x) }
     | _, _ => pure sh        -- not an outstanding block: the client writing into its own untracked memory is no subject here
-  | ["gfree", addr, _, _] => release sh sh.curMal (nat addr) obs true
-  | [g, size, _, _] =>
-    if g != "gnew" && g != "gnewarray" && g != "gmalloc" then throw "bad-op"
-    else
-      let ai := if g == "gnew" then sh.curNew else if g == "gnewarray" then sh.curArr else sh.curMal
-      match retOf obs with
-      | some r =>
-        if r == 0 then pure sh
-        else if (find sh r).isSome then throw s!"environment: the allocator returned the live address {r}"
-        else pure { sh with live := newBlk sh r (nat size) ai :: sh.live }
-      | none => throw "alloc: no result"
+  | ["gacq", form, size, _, _] =>
+    -- whatever extra arguments the form takes, the block belongs to the form's family
+    let ai := curOf sh form
+    match retOf obs with
+    | some r =>
+      if r == 0 then pure sh
+      else if (find sh r).isSome then throw s!"environment: the allocator returned the live address {r}"
+      else pure { sh with live := newBlk sh r (nat size) ai :: sh.live }
+    | none => throw "alloc: no result"
+  | ["grel", form, addr, _, _] => release sh (curOf sh form) (nat addr) obs true
   | ["free", ai, addr, _, _, _] => release sh (nat ai) (nat addr) obs false
-  | ["gdelete", addr] => release sh sh.curNew (nat addr) obs true
-  | ["gdeletearray", addr] => release sh sh.curArr (nat addr) obs true
   | ["realloc", ai, addr, size, _, _, _] =>
     let a := nat addr
     match retOf obs with
